@@ -87,4 +87,53 @@ theorem scan_ops_readonly : targetWritten scanOps = false ∧ tempsLeft scanOps 
 -- non-vacuity: a pass with a line fix only
 example : passOps false true none = [.read true, .read true, .createLine, .writeLine, .copyBack, .removeLine] := by decide
 
+
+/-! ### Domain of the pass model: the completion-line conflict
+
+The pass model `completedG` lets the last appender win; the real code raises `BadPluginError` when a second fix-bound rule sets a
+completion line (`fixConflict` computes where).  The theorems above therefore speak about runs with `fileConflict = none`; this is
+not a restriction for any configuration in which at most one rule can append (the built-in rule set: only MD047). -/
+
+/-- With at most one possible appender per level there is never a conflict, for every document, token fixer and fuel. -/
+theorem no_conflict_of_single_appender (rs : List XRule) (toks : String → List String)
+    (tokFix : Nat → String → Option String)
+    (h : ∀ k last, appenders k rs last ≤ 1) :
+    ∀ (fuel k : Nat) (d : String), fixConflict rs toks tokFix fuel k d = none := by
+  intro fuel
+  induction fuel with
+  | zero => intro k d; rfl
+  | succ n ih =>
+    intro k d
+    have hc : passConflict k rs d (tokFix k d) = false := by
+      unfold passConflict
+      have := h k (linesLoop k rs ⟨"", none, 0, [], []⟩ 1 (splitLines ((tokFix k d).getD d))).lastFixed
+      simp only [decide_eq_false_iff_not]
+      omega
+    unfold fixConflict
+    rw [hc]
+    simp only [Bool.false_eq_true, if_false]
+    split
+    · rfl
+    · exact ih _ _
+
+theorem file_no_conflict_of_single_appender (rs : List XRule) (toks : String → List String)
+    (tokFix : Nat → String → Option String) (doc : String)
+    (h : ∀ k last, appenders k rs last ≤ 1) : fileConflict rs toks tokFix doc = none := by
+  unfold fileConflict
+  split
+  · rfl
+  · exact no_conflict_of_single_appender rs toks tokFix h _ _ _
+
+/-- The excluded point is real: two level-1 rules that both append the final newline conflict on a document without one. -/
+def nlRule (id : String) : XRule :=
+  { id := id, level := 1, fixes := true, hasStart := false, hasToken := false, hasLine := false, hasDone := true,
+    tokTrig := fun _ => false, lineTrig := fun _ => false, lineFix := fun _ => none,
+    doneFix := fun last => match last with | some s => if s.endsWith "\n" then none else some "\n" | none => none }
+
+-- tests (evaluated by the compiler; `String.splitOn` / `endsWith` do not reduce in the kernel): the conflict is reachable with two
+-- appenders and not with one; the real code is run on the same two configurations by the fix-mode correspondence
+#guard (fileConflict [nlRule "a", nlRule "b"] (fun _ => []) (fun _ _ => none) "x") == some (1, "x")
+#guard (fileConflict [nlRule "a"] (fun _ => []) (fun _ _ => none) "x") == none
+#guard (fileConflict [nlRule "a", nlRule "b"] (fun _ => []) (fun _ _ => none) "x\n") == none
+
 end Verif.Props.C10
